@@ -58,6 +58,7 @@ class Run:
         with vos.fresh(sched) as world:
             world.seq_horizon = world.now + 500
             vproc.launcher = vproc.run_child
+            vos.deliver_signal = vproc.deliver_signal
             try:
                 ctx = vproc.VPoolContext()
                 inq, outq = ctx.SimpleQueue(), ctx.SimpleQueue()
